@@ -7,6 +7,7 @@ import (
 
 	"verifsim/choice"
 	"verifsim/gen"
+	"verifsim/simrt"
 )
 
 // WOpts steers world generation (swarm: each world first draws which features are on).
@@ -101,7 +102,11 @@ func genWorldKeyed(src *choice.Src, o WOpts, keySeed uint64) *World {
 		w.PreOut = &InFile{Path: w.Out, Content: "// SENTINEL " + fmt.Sprint(src.Draw("sentinel", 1000)) + "\npackage old\n", Mode: []uint32{0644, 0600, 0664, 0755}[src.Draw("premode", 4)]}
 	}
 	if o.LayoutFault && src.Chance("oddout", 1, 6) {
-		switch src.Draw("oddoutk", 9) {
+		switch src.Draw("oddoutk", 11) {
+		case 9: // a device whose content never ends
+			w.OutKind, w.Out, w.PreOut = "devzero", "/dev/zero", nil
+		case 10: // a named pipe that some consumer keeps open
+			w.OutKind, w.Out, w.PreOut = "pipe", simrt.VPipe, nil
 		case 6: // a chain of links that enters a cycle not containing -o itself
 			w.OutKind, w.Out, w.PreOut = "symlink-cycle", "gen.go", nil
 		case 7: // a dangling link with a relative target, in a directory that is not cwd
